@@ -168,9 +168,17 @@ def unopenable_files(fam, tier):
     drop = [setpriv, "--reuid=65534", "--regid=65534", "--clear-groups"]
     with cli.Sandbox("c18f-perm") as sb:
         os.chmod(sb.dir, 0o755)
-        probe = subprocess.run(drop + [cli.CLI, "--version"], stdout=subprocess.PIPE, stderr=subprocess.PIPE)
+        # the unprivileged user must be able to run the binary and to reach the sandbox (not so when /verif lives
+        # under a directory that only root may enter): probe with a formatted file that must pass --mode=check
+        pd = sb.path("probe")
+        os.makedirs(pd)
+        os.chmod(pd, 0o777)
+        pf = os.path.join(pd, "ok.pas")
+        open(pf, "wb").write(b"a;\n")
+        os.chmod(pf, 0o666)
+        probe = subprocess.run(drop + [cli.CLI, "--config-file", sb.empty_cfg, "--mode=check", pf], stdout=subprocess.PIPE, stderr=subprocess.PIPE)
         if probe.returncode != 0:
-            fam.count("c18free.unopenable-skipped(cannot run the binary as an unprivileged user)")
+            fam.count("c18free.unopenable-skipped(the unprivileged user cannot run the binary or reach the sandbox)")
             return
         cache = {}
         for mode in ("files", "check"):
